@@ -9,6 +9,10 @@
 // Update with Rewind (with / without DisableDisconnectedNtfns) applied while the
 // block the caller holds is off the best chain (reorganisation not yet consumed
 // by the rescan: notifications queued, racing, or during a walk by height).
+// Family opaque-spend (internal/c09/opaque.go): watched outpoints spent through
+// inputs from which the spent script cannot be recovered (empty / non-push-only
+// / unparseable signature script, key-path-looking witness), met by the walk by
+// height, by notification, after a rewind and across a reorganisation.
 //
 // L2 part (internal/c09/l2.go): the same oracle applied to the real client end
 // to end: neutrino.NewRescan(&neutrino.RescanChainSource{svc}) on the complete
